@@ -225,16 +225,16 @@ func parent(prop string) {
 		}
 		r.NontrivialN(id, res.Keys)
 	}
-	if prop == "C09" {
-		// stage 1 (validation enumeration, engine E3) ran just before; embed what it covered
+	if label, ok := map[string]string{"C09": "stage1_validation_enumeration", "C01": "stage1_arithmetic_enumeration"}[prop]; ok {
+		// stage 1 (engine E3) ran just before; embed what it covered
 		root := "/verif"
 		if d := os.Getenv("VERIF_OUT_ROOT"); d != "" {
 			root = d
 		}
-		if b, err := os.ReadFile(root + "/evidence/C09.stage1.json"); err == nil {
+		if b, err := os.ReadFile(root + "/evidence/" + prop + ".stage1.json"); err == nil {
 			var ev map[string]interface{}
 			if json.Unmarshal(b, &ev) == nil {
-				r.Extra["stage1_validation_enumeration"] = ev["coverage"]
+				r.Extra[label] = ev["coverage"]
 			}
 		}
 	}
@@ -307,6 +307,26 @@ func replay(prop, file string) {
 		os.Exit(1)
 	}
 	fmt.Printf("REPLAY verdict: recorded signature %s NOT reproduced\n", f.Signature)
+}
+
+// script: --script PROP SCENARIO "user:release;drain;user:approve;drain;..." runs a hand-written history on the
+// real controllers (real queues) with the property's monitors attached: a debugging aid and the way directed
+// regression histories are replayed.
+func script(prop, scID string, items []string) {
+	plan := sim.Plans(false)[prop]
+	sc := sim.Scenarios(false)[scID]
+	w, err := buildWorld(sc, false)
+	if err != nil {
+		fmt.Println("HARNESS-ERROR build:", err)
+		os.Exit(2)
+	}
+	r := lib.NewReport(prop)
+	cfg := sim.Config{Sc: sc, Actions: plan.Actions, Monitors: append([]sim.Monitor{sim.ContextTracker{}}, plan.Monitors(w, sc)...)}
+	ex := sim.NewExplorer(w, cfg, r)
+	ex.Script(items, true)
+	for _, v := range r.RawViolations() {
+		fmt.Printf("VIOLATION %v\n   %v\n", v["signature"], v["detail"])
+	}
 }
 
 // linear runs one scenario under the default schedule (controllers first, then env, approvals granted),
@@ -382,6 +402,8 @@ func linear(scID string) {
 
 func main() {
 	switch {
+	case len(os.Args) == 5 && os.Args[1] == "--script":
+		script(os.Args[2], os.Args[3], strings.Split(os.Args[4], ";"))
 	case len(os.Args) == 3 && os.Args[1] == "--linear":
 		linear(os.Args[2])
 	case len(os.Args) == 5 && os.Args[1] == "--worker":
